@@ -1,3 +1,5 @@
+from fractions import Fraction
+
 from rtamt.syntax.ast.visitor.stl.ast_visitor import StlAstVisitor
 from rtamt.semantics.interval.interval import Interval
 from rtamt.pastifier.ltl.pastifier import LtlPastifier
@@ -44,9 +46,19 @@ class StlPastifier(LtlPastifier, StlAstVisitor):
         LtlPastifier.__init__(self)
         self.node_horizons = dict()
 
+    def bounds(self, node):
+        # bounds of a timed node expressed in the default unit of the specification;
+        # the intervals of the pastified specification carry no explicit unit
+        units = self.ast.U
+        begin_unit = node.begin_unit or node.end_unit or self.ast.unit
+        end_unit = node.end_unit or node.begin_unit or self.ast.unit
+        begin = Fraction(node.begin) * units[begin_unit] / units[self.ast.unit]
+        end = Fraction(node.end) * units[end_unit] / units[self.ast.unit]
+        return begin, end
+
     def pastify(self, ast):
         self.ast = ast
-        h = StlHorizon()
+        h = StlHorizon(self.bounds)
         horizons = dict()
         for spec in ast.specs:
             horizon = h.visit(spec, None)
@@ -76,8 +88,7 @@ class StlPastifier(LtlPastifier, StlAstVisitor):
         return node
 
     def visitTimedEventually(self, node, *args, **kwargs):
-        begin = node.begin
-        end = node.end
+        begin, end = self.bounds(node)
         horizon = args[0] - end
         node = self.visit(node.children[0], horizon)
         if end - begin > 0:
@@ -85,8 +96,7 @@ class StlPastifier(LtlPastifier, StlAstVisitor):
         return node
 
     def visitTimedAlways(self, node, *args, **kwargs):
-        begin = node.begin
-        end = node.end
+        begin, end = self.bounds(node)
         horizon = args[0] - end
         node = self.visit(node.children[0], horizon)
         if end - begin > 0:
@@ -94,8 +104,7 @@ class StlPastifier(LtlPastifier, StlAstVisitor):
         return node
 
     def visitTimedUntil(self, node, *args, **kwargs):
-        begin = node.begin
-        end = node.end
+        begin, end = self.bounds(node)
         horizon = args[0] - end
         child1_node = self.visit(node.children[0], horizon)
         child2_node = self.visit(node.children[1], horizon)
@@ -107,10 +116,11 @@ class StlPastifier(LtlPastifier, StlAstVisitor):
         remaining_horizon = args[0]
         horizon = remaining_horizon - node_horizon
         child_node = self.visit(node.children[0], node_horizon)
+        begin, end = self.bounds(node)
         if horizon > 0:
-            node = TimedOnce(child_node, Interval(node.begin + horizon, node.end + horizon))
+            node = TimedOnce(child_node, Interval(begin + horizon, end + horizon))
         else:
-            node = TimedOnce(child_node, Interval(node.begin, node.end))
+            node = TimedOnce(child_node, Interval(begin, end))
         return node
 
     def visitTimedHistorically(self, node, *args, **kwargs):
@@ -118,7 +128,8 @@ class StlPastifier(LtlPastifier, StlAstVisitor):
         remaining_horizon = args[0]
         horizon = remaining_horizon - node_horizon
         child_node = self.visit(node.children[0], node_horizon)
-        node = TimedHistorically(child_node, Interval(node.begin, node.end))
+        begin, end = self.bounds(node)
+        node = TimedHistorically(child_node, Interval(begin, end))
         if horizon > 0:
             node = TimedOnce(child_node, Interval(horizon, horizon))
         return node
@@ -129,7 +140,8 @@ class StlPastifier(LtlPastifier, StlAstVisitor):
         horizon = remaining_horizon - node_horizon
         child_node_1 = self.visit(node.children[0], node_horizon)
         child_node_2 = self.visit(node.children[1], node_horizon)
-        node = TimedSince(child_node_1, child_node_2, Interval(node.begin, node.end))
+        begin, end = self.bounds(node)
+        node = TimedSince(child_node_1, child_node_2, Interval(begin, end))
         if horizon > 0:
             node = TimedOnce(node, Interval(horizon, horizon))
         return node
@@ -138,8 +150,7 @@ class StlPastifier(LtlPastifier, StlAstVisitor):
         node_horizon = self.subformula_horizons[node]
         remaining_horizon = args[0]
         horizon = remaining_horizon - node_horizon
-        end = node.end
-        begin = node.begin
+        begin, end = self.bounds(node)
         child1_node = self.visit(node.children[0], node_horizon)
         child2_node = self.visit(node.children[1], node_horizon)
         node = TimedPrecedes(child1_node, child2_node, Interval(begin, end))
